@@ -413,6 +413,9 @@ impl<Store: StorageData> DbImpl<Store> {
         &mut self,
         f: impl FnOnce(&mut TransactionMut<Store>) -> Result<T, E>,
     ) -> Result<T, E> {
+        // The whole transaction is a single storage transaction so that
+        // it is applied atomically to the underlying storage.
+        let id = self.storage.transaction();
         let mut transaction = TransactionMut::new(&mut *self);
         let result = f(&mut transaction);
 
@@ -421,6 +424,8 @@ impl<Store: StorageData> DbImpl<Store> {
         } else {
             transaction.rollback()?;
         }
+
+        self.storage.commit(id)?;
 
         result
     }
@@ -1148,6 +1153,7 @@ impl<Store: StorageData> DbImpl<Store> {
         let values_storage;
 
         if storage.value_size(StorageIndex(1)).is_err() {
+            let id = storage.transaction();
             storage.insert(&DbStorageIndex::default())?;
             graph_storage = DbGraph::new(&mut storage)?;
             aliases_storage = DbIndexedMap::new(&mut storage)?;
@@ -1161,6 +1167,7 @@ impl<Store: StorageData> DbImpl<Store> {
                 values: values_storage.storage_index(),
             };
             storage.insert_at(StorageIndex(1), 0, &db_storage_index)?;
+            storage.commit(id)?;
         } else {
             let index = if let Ok(index) = storage.value::<DbStorageIndex>(StorageIndex(1)) {
                 index
